@@ -349,3 +349,78 @@ def check(case, rec):
             break
     if "row ids shifted beyond 2^31" in flags and len(flags) >= 2:
         rec.nontrivial()
+
+
+# --------------------------------------------------------------------------- #
+# long entries: set updates against entries of hundreds of consecutive row ids
+
+
+def enum_long_entries(tier, shard, nshards):
+    """An entry that is one long run of consecutive (or evenly spaced) row ids - a category of a sorted file -
+    updated in place with a few row ids at and around block boundaries (63/64, 255/256, 511/512, first, last),
+    some of them already listed, some new. Block-wise copying in the union / difference kernels has its slips here."""
+    i = 0
+    lengths = [64, 65, 257, 300, 513, 1025] if tier == "quick" else [64, 65, 129, 257, 300, 513, 1025, 2049, 4097]
+    for n in lengths:
+        for step in (1, 2):
+            marks = sorted({0, 1, 62, 63, 64, 127, 128, 254, 255, 256, 257, 511, 512, n // 2, n - 2, n - 1} & set(range(n)))
+            for kind in ("union", "difference", "intersection"):
+                for m in marks:
+                    for extra in ([], [n * step + 5], [m * step + 1] if step == 2 else [n * step + 1, n * step + 9]):
+                        if i % nshards == shard:
+                            yield {"n": n, "step": step, "kind": kind, "mark": m, "extra": extra,
+                                   "two_d": bool(i % 3 == 0)}
+                        i += 1
+
+
+def check_long_entries(case, rec):
+    import numpy
+
+    from catii import iindex
+
+    from .machine import wellformed
+    from .cubes import dense_of
+
+    n, step = case["n"], case["step"]
+    rows = [step * j for j in range(n)]
+    N = step * n + 12
+    given = sorted(set([rows[case["mark"]]] + case["extra"]))
+    given = [r for r in given if r < N]
+    if case["two_d"]:
+        ix = iindex({(1, 0): numpy.array(rows, dtype=numpy.uint32), (2, 1): numpy.array([3], dtype=numpy.uint32)}, 0, (N, 2))
+        key = (1, 0)
+        dense = numpy.zeros((N, 2), dtype=numpy.int64)
+        dense[rows, 0] = 1
+        dense[3, 1] = 2
+        cell = lambda r: (r, 0)
+    else:
+        ix = iindex({(1,): numpy.array(rows, dtype=numpy.uint32)}, 0, (N,))
+        key = (1,)
+        dense = numpy.zeros(N, dtype=numpy.int64)
+        dense[rows] = 1
+        cell = lambda r: (r,)
+    other = {key: numpy.array(given, dtype=numpy.uint32)}
+    with libcall("%s_update on an entry of %d consecutive row ids" % (case["kind"], n)):
+        getattr(ix, case["kind"] + "_update")(other)
+    if case["kind"] == "union":
+        for r in given:
+            dense[cell(r)] = 1
+    elif case["kind"] == "difference":
+        for r in given:
+            dense[cell(r)] = 0
+    else:
+        keep = set(given)
+        for r in rows:
+            if r not in keep:
+                dense[cell(r)] = 0
+        if case["two_d"]:
+            dense[3, 1] = 0  # an entry absent from the operand is dropped by intersection_update
+    what = "%s_update(%s) on an entry of %d row ids (step %d)" % (case["kind"], given, n, step)
+    wellformed(ix, what, case["kind"] + "_update (long entry)")
+    got = dense_of(ix)
+    if got.shape != dense.shape or not numpy.array_equal(got, dense):
+        bad = numpy.argwhere(got != dense)[0].tolist() if got.shape == dense.shape else None
+        raise Violation("%s: the index no longer stands for the expected array (first difference at %s)" % (what, bad),
+                        sig=case["kind"] + "_update wrong on a long entry")
+    rec.note("kind=" + case["kind"], "n=%d" % n)
+    rec.nontrivial_enum()
